@@ -128,6 +128,12 @@ type Case struct {
 	End       string   `json:"end"`                        // close remote
 	Excl      int      `json:"excluded_backlog,omitempty"` // rounds whose drawn backlog window was > 8 and was clamped
 	Mal       *Mal     `json:"mal,omitempty"`
+	// ReverseY: the user's TNC follows the AGWPE document for 'Y' queries (names the calls in the order in which
+	// the connection was started) and the library's option for such TNCs, AGWPE_REVERSE_TO_FROM=1, is set.
+	ReverseY bool `json:"reverse_y,omitempty"`
+	// CtxCancel (dial): the dial context is a cancellable one that the caller cancels (defer cancel()) once
+	// DialContext has returned; the connection must live on.
+	CtxCancel bool `json:"ctx_cancel,omitempty"`
 }
 
 // stats is what a run tells account().
